@@ -203,11 +203,11 @@ class RungeKuttaIntegrator(TableauIntegrator, abc.ABC):
                     self.solver_dict['redo_count'] += 1
                     try:
                         timestep, (self.dTime, self.dState) = self.step(rhs, initial_time, initial_state, constants,
-                                                                             D.ar_numpy.minimum(timestep, current_timestep))
+                                                                             D.ar_numpy.where(D.ar_numpy.abs(timestep) < D.ar_numpy.abs(current_timestep), timestep, current_timestep))
                     except (*D.linear_algebra_exceptions, ValueError):
                         self._requires_high_precision = True
                         timestep, (self.dTime, self.dState) = self.step(rhs, initial_time, initial_state, constants,
-                                                                             D.ar_numpy.minimum(timestep, current_timestep))
+                                                                             D.ar_numpy.where(D.ar_numpy.abs(timestep) < D.ar_numpy.abs(current_timestep), timestep, current_timestep))
                     self.solver_dict['diff'] = timestep * self.get_error_estimate()
                     self.solver_dict['timestep'] = self.dTime
                     self.solver_dict['dState'] = self.dState
